@@ -46,6 +46,7 @@ type Mode struct {
 	// schedule's trace; elsewhere the non-mmap loader, plus the mmap loader whenever an error path ran)
 	AllSegPrefixes bool
 	Conformance    bool // replay every distinct trace on the real directory
+	CumulativeAck  bool // C14: an acknowledgement covers every batch applied before it (single client)
 }
 
 type batchRec struct {
@@ -271,6 +272,15 @@ func Judge(name string, sc Scenario, mode Mode, trace []crashfs.Event, recs []ba
 	crashfs.EnumerateImages(nil, trace, crashfs.ImageOpts{AllSegmentPrefixes: mode.AllSegPrefixes}, ackKinds, func(img *crashfs.Image) bool {
 		res.Counts["crash_images"]++
 		am := maskOf(img.Acked)
+		if mode.CumulativeAck && am != 0 {
+			hi := 0
+			for _, b := range img.Acked {
+				if b > hi {
+					hi = b
+				}
+			}
+			am = (1 << uint(hi+1)) - 1
+		}
 		ik := fmt.Sprintf("%s|%x|%d|%v|%s", name, img.Hash[:12], am, img.SnapshotDone, ak)
 		if seenImage[ik] {
 			return true
